@@ -239,7 +239,8 @@ Definition set_rules_state (cr : cursor) (gri : bool) (picto : pictoSeq) (wri : 
 
 (* one iteration of the main loop at index i (0 <= i <= len): returns the new cursor, the attribute of
    position i and the index whose word flag must be cleared (if any) *)
-Definition step (cr0 : cursor) (i : Z) (r next : obs) : cursor * attr * option Z :=
+(* `aft` is cursor.afterMarksLine: the class following r past the combining marks attached to it (see after_marks) *)
+Definition step (cr0 : cursor) (i : Z) (r next : obs) (aft : lbc) : cursor * attr * option Z :=
   let cr := start_iteration cr0 i r next in
   let '(picto, gb11) := update_picto (c_pictoSequence cr) (c_isExtPic cr) (c_grapheme cr) in
   let '(gri, gb1213) := update_grapheme_ri (c_gRIOdd cr) (c_grapheme cr) in
@@ -251,13 +252,33 @@ Definition step (cr0 : cursor) (i : Z) (r next : obs) : cursor * attr * option Z
   let '(ns, trigger) := update_num_sequence (c_numSequence cr) line in
   let cr1 := set_rules_state cr gri picto wri line ns in
   let bo := line_decision (c_prevLine cr1) (c_prevPrevLine cr1) (c_line cr1) (c_beforeSpaces cr1) (c_prev cr1)
-                          (c_prevBase cr1) (c_r cr1) (c_nextLine cr1) (c_lRIOdd cr1) trigger in
+                          (c_prevBase cr1) (c_r cr1) aft (c_lRIOdd cr1) trigger in
   let '(ln, mand) := match bo with
                      | breakEmpty | breakAllowed => (true, false)
                      | breakProhibited => (false, false)
                      | breakMandatory => (true, true)
                      end in
   (end_iteration cr1 (i =? 0)%Z, mkAttr ln mand isG isW, if remove then Some (c_prevWordNoExtend cr) else None).
+
+(* isLineCombiningMark and the look-ahead of startIteration (repaired, F3): when r is OP or HY and the next rune is a
+   combining mark, the class of the first rune after the marks (XX at the end of the text); otherwise the next class *)
+Definition is_line_mark (o : obs) : bool :=
+  match o_lb o with
+  | LB_SA => o_mnmc o
+  | LB_CM | LB_ZWJ => true
+  | _ => false
+  end.
+Fixpoint first_non_mark (l : list obs) : lbc :=
+  match l with
+  | [] => LB_XX
+  | o :: r => if is_line_mark o then first_non_mark r else o_lb o
+  end.
+Definition after_marks (r : obs) (rest' : list obs) : lbc :=
+  match rest' with
+  | [] => o_lb obs_psep
+  | n :: rest'' =>
+      if (lbq (o_lb r) LB_OP || lbq (o_lb r) LB_HY) && is_line_mark n then first_non_mark rest'' else o_lb n
+  end.
 
 Fixpoint clear_word (attrs : list attr) (k : nat) : list attr :=
   match attrs, k with
@@ -270,14 +291,14 @@ Fixpoint clear_word (attrs : list attr) (k : nat) : list attr :=
 Fixpoint loop (cr : cursor) (i : Z) (rest : list obs) (done : list attr) : res (list attr) :=
   match rest with
   | [] =>
-      let '(cr', a, rm) := step cr i obs_psep obs_nul in
+      let '(cr', a, rm) := step cr i obs_psep obs_nul (o_lb obs_nul) in
       match rm with
       | Some k => if (k <? 0)%Z || (i <=? k)%Z then Panic 1%nat else Ok (clear_word done (Z.to_nat k) ++ [a])
       | None => Ok (done ++ [a])
       end
   | r :: rest' =>
       let next := match rest' with [] => obs_psep | n :: _ => n end in
-      let '(cr', a, rm) := step cr i r next in
+      let '(cr', a, rm) := step cr i r next (after_marks r rest') in
       match rm with
       | Some k => if (k <? 0)%Z || (i <=? k)%Z then Panic 1%nat else loop cr' (i + 1) rest' (clear_word done (Z.to_nat k) ++ [a])
       | None => loop cr' (i + 1) rest' (done ++ [a])
